@@ -170,7 +170,25 @@ def gen_csv(tier, seed):
 
 
 # ------------------------------------------------------------------------------------- oracle
+OUTFILES = ("sq_out.csv", "sq_out_qvectors.csv")
+
+
+def _clean():
+    for f in OUTFILES:
+        if os.path.exists(f):
+            os.remove(f)
+
+
 def run(case):
+    """Scratch files never survive a case (a stale file would make the next case depend on the history)."""
+    _clean()
+    try:
+        return _run(case)
+    finally:
+        _clean()
+
+
+def _run(case):
     import pandas as pd
     from PyMatterSim.static.sq import sq
 
@@ -262,18 +280,19 @@ def run(case):
         R.fail("caller's wave-vector array modified", sig=dict(sig, clause="input_modified"))
 
     if case["csv"]:
+        if not os.path.exists(out):
+            R.fail(f"outputfile {out} was not written", sig=dict(sig, clause="csv"), sub="C04.csv")
+            return R
         back = pd.read_csv(out)
         if list(back.columns) != list(res.columns) or back.shape != res.shape or \
                 not np.allclose(back.values, res.values, rtol=0, atol=0.5000001e-6):
             R.fail("CSV file differs from the returned frame beyond %.6f", sig=dict(sig, clause="csv"), sub="C04.csv")
-        os.remove(out)
         qf = out[:-4] + "_qvectors.csv"
         if case["saveqvectors"]:
             if not os.path.exists(qf):
                 R.fail(f"saveqvectors=True but {qf} was not written", sig=dict(sig, clause="qvectors_file"), sub="C04.csv")
             else:
                 pv = pd.read_csv(qf)
-                os.remove(qf)
                 qc = [f"q{i}" for i in range(d)]
                 if list(pv.columns)[:d] != qc or sorted(pv.columns[d:]) != sorted(["q"] + cols) or len(pv) != len(qint):
                     R.fail(f"per-vector file: columns {list(pv.columns)} rows {len(pv)}, expected {qc + ['q'] + cols} rows {len(qint)}",
